@@ -170,6 +170,20 @@ Theorem C02_model_satisfies_monitor : forall i, known i = 0 -> monitor i (model 
 Proof. exact monitor_model. Qed.
 Print Assumptions C02_model_satisfies_monitor.
 
+(* ---- sign / verify (operation 15): on every case the harness can produce (the oracle entry is
+   what the property demands, i.e. `honest`; an honest case has a 32-byte curve point as key)
+   the monitor holds of an OBSERVED output exactly when a signature made by signing this
+   message under this key was accepted, and anything else (another message, another key,
+   a changed or crafted signature) was rejected or its key refused.  Ed25519 itself is not
+   modelled: the verification answer of the model is the oracle entry of the input. ---- *)
+Theorem C02_monitor_verify_is_property : forall k m sg honest pts urls (o : output),
+  (honest = true -> length k = 32%nat /\ is_point_of pts k = true) ->
+  monitor (OpVerify k m sg honest honest, pts, urls) o = true <->
+  (if honest then o = Ok (OBytes [Ok [1]])
+   else o = Ok (OBytes [Ok [0]]) \/ exists e, o = Err e).
+Proof. exact monitor_verify_spec. Qed.
+Print Assumptions C02_monitor_verify_is_property.
+
 (* ---- EndpointAddr through postcard: refuted for SocketAddrV6 with scope id / flow info ---- *)
 Theorem C02_endpoint_addr_postcard_refuted : exists i, known i = 1 /\ monitor i (model i) = false /\
   match i with (OpEaRt e, pts, urls) => wf_eaddr (is_point_of pts) (url_parse_of urls) e = true | _ => False end.
